@@ -270,8 +270,8 @@ theorem Inv.init (w : Bool) (progs : List ThreadProgram)
   · intro r hr; simp [initSys] at hr
   · simp [initSys]
 
-theorem Inv.step {sys : Sys} (h : Inv sys) (t : Nat) : Inv (step sys t) := by
-  unfold Neumann.KV.step
+theorem Inv.stepOld {sys : Sys} (h : Inv sys) (t : Nat) : Inv (stepOld sys t) := by
+  unfold Neumann.KV.stepOld
   split
   · exact h
   · rename_i th hth
@@ -302,6 +302,16 @@ theorem Inv.step {sys : Sys} (h : Inv sys) (t : Nat) : Inv (step sys t) := by
         simp only [List.mem_singleton] at hb
         subst hb
         exact (h.times a ha).2
+
+theorem Inv.step {sys : Sys} (h : Inv sys) (t : Nat) : Inv (step sys t) := by
+  unfold Neumann.KV.step
+  split
+  · exact h
+  · split
+    · exact h
+    · split
+      · exact h
+      · exact h.stepOld t
 
 theorem Inv.run {sys : Sys} (h : Inv sys) (sched : List Nat) : Inv (runFrom sys sched) := by
   induction sched generalizing sys with
@@ -381,7 +391,7 @@ theorem seqValid_get_written {σ : Spec} {l : List OpRec} (hv : SeqValid σ l)
         · exact Or.inr ⟨a, List.mem_cons_self, h2⟩
       · exact Or.inr ⟨w, List.mem_cons_of_mem _ hw, hw'⟩
 
-/-! ### durable writers that own their keys -/
+/-! ### durable writers -/
 
 theorem view_of_shape (s1 s2 : Store) (k : Key)
     (h1 : s1.vocab = [] ∧ s1.slab = [] ∧ s1.cache = [])
@@ -427,168 +437,7 @@ theorem getElem?_set_cases {α} {l : List α} {t i : Nat} {a x old : α} (hold :
 def pendingPut (th : Thread) (k : Key) (v : Val) : Prop :=
   th.pc = .putDAfterLog ∧ ∃ rest, th.ops = .putD k v :: rest
 
-/-- invariant of runs of durable writers (vector-free values, plain/graph/table keys) in which no
-    key is written by two threads: the replayed log agrees with memory on every key except those
-    of a write that is logged and not yet applied, where it already holds the logged value -/
-structure DInv (sys : Sys) : Prop where
-  walOn : sys.store.walOn = true
-  shape : sys.store.vocab = [] ∧ sys.store.slab = [] ∧ sys.store.cache = []
-  rshape : (replay sys.store.wal).vocab = [] ∧ (replay sys.store.wal).slab = [] ∧
-    (replay sys.store.wal).cache = []
-  pcs : ∀ th ∈ sys.threads, (th.pc = .start ∨ th.pc = .putDAfterLog) ∧
-    ∀ op ∈ th.ops, op.simpleDurablePut = true
-  own : ∀ (i j : Nat) (thi thj : Thread), sys.threads[i]? = some thi → sys.threads[j]? = some thj →
-    i ≠ j → ∀ a ∈ thi.ops, ∀ b ∈ thj.ops, Op.key? a ≠ Op.key? b
-  pend : ∀ (i : Nat) (th : Thread) (k : Key) (v : Val), sys.threads[i]? = some th → pendingPut th k v →
-    aget (replay sys.store.wal).md k = some v
-  idle : ∀ k : Key, (∀ (i : Nat) (th : Thread) (v : Val), sys.threads[i]? = some th → ¬ pendingPut th k v) →
-    aget (replay sys.store.wal).md k = aget sys.store.md k
-
-/-- no key is written by two different threads -/
-def KeysOwned (progs : List ThreadProgram) : Prop :=
-  ∀ (i j : Nat) (pi pj : ThreadProgram), progs[i]? = some pi → progs[j]? = some pj → i ≠ j →
-    ∀ a ∈ pi, ∀ b ∈ pj, Op.key? a ≠ Op.key? b
-
-theorem DInv.init (progs : List ThreadProgram)
-    (h : ∀ p ∈ progs, ∀ op ∈ p, op.simpleDurablePut = true) (ho : KeysOwned progs) :
-    DInv (initSys true progs) := by
-  constructor
-  · rfl
-  · exact ⟨rfl, rfl, rfl⟩
-  · exact ⟨rfl, rfl, rfl⟩
-  · intro th hth
-    simp only [initSys, List.mem_map] at hth
-    obtain ⟨p, hp, rfl⟩ := hth
-    exact ⟨Or.inl rfl, h p hp⟩
-  · intro i j thi thj hi hj hij a ha b hb
-    simp only [initSys, List.getElem?_map, Option.map_eq_some_iff] at hi hj
-    obtain ⟨pi, hpi, rfl⟩ := hi
-    obtain ⟨pj, hpj, rfl⟩ := hj
-    exact ho i j pi pj hpi hpj hij a ha b hb
-  · intro i th k v hi hp
-    simp only [initSys, List.getElem?_map, Option.map_eq_some_iff] at hi
-    obtain ⟨p, _, rfl⟩ := hi
-    exact absurd hp.1 (by simp)
-  · intro k _
-    rfl
-
-theorem DInv.step {sys : Sys} (h : DInv sys) (t : Nat) : DInv (step sys t) := by
-  unfold Neumann.KV.step
-  split
-  · exact h
-  · rename_i th hth
-    split
-    · exact h
-    · rename_i op rest hops
-      have hmem : th ∈ sys.threads := List.mem_of_getElem? hth
-      obtain ⟨hpc, hsimple⟩ := h.pcs th hmem
-      obtain ⟨k, v, rfl, hc, he, hv⟩ := simple_cases (hsimple op (by simp [hops]))
-      -- the key of the current op belongs to thread `t` only
-      have hown : ∀ i th', sys.threads[i]? = some th' → i ≠ t →
-          ∀ b ∈ th'.ops, b.key? ≠ some k := by
-        intro i th' hi hit b hb hbk
-        exact h.own i t th' th hi hth hit b hb (.putD k v) (by simp [hops]) (by simpa [Op.key?] using hbk)
-      rcases hpc with hpc | hpc
-      · -- the log step
-        have hstep : stepOp sys.store (.putD k v) .start =
-            ({ sys.store with wal := sys.store.wal ++ [.metaSet k v] }, .cont .putDAfterLog) := by
-          simp [stepOp, hc, logPut, h.walOn, hv]
-        simp only [hpc, hstep, if_true]
-        have hrep : replay (sys.store.wal ++ [.metaSet k v]) =
-            { replay sys.store.wal with md := aset (replay sys.store.wal).md k v } := by
-          rw [replay_snoc, applyEntry_simple _ _ _ hv he]
-        constructor
-        · exact h.walOn
-        · exact h.shape
-        · simpa only [hrep] using h.rshape
-        · intro th' hm
-          rcases List.mem_or_eq_of_mem_set hm with h1 | h1
-          · exact h.pcs th' h1
-          · subst h1; exact ⟨Or.inr rfl, hsimple⟩
-        · intro i j thi thj hi hj hij a ha b hb
-          rcases getElem?_set_cases hth hi with ⟨rfl, rfl⟩ | ⟨hit, hi'⟩ <;>
-            rcases getElem?_set_cases hth hj with ⟨rfl, rfl⟩ | ⟨hjt, hj'⟩
-          · exact absurd rfl hij
-          · exact h.own _ _ th thj hth hj' hij a ha b hb
-          · exact h.own _ _ thi th hi' hth hij a ha b hb
-          · exact h.own _ _ thi thj hi' hj' hij a ha b hb
-        · intro i th' k' v' hi hp
-          simp only [hrep, aget_aset]
-          rcases getElem?_set_cases hth hi with ⟨rfl, rfl⟩ | ⟨hit, hi'⟩
-          · obtain ⟨_, rest', hr⟩ := hp
-            simp only [hops, List.cons.injEq, Op.putD.injEq] at hr
-            obtain ⟨⟨rfl, rfl⟩, _⟩ := hr
-            simp
-          · have hne : k ≠ k' := by
-              intro e
-              obtain ⟨_, rest', hr⟩ := hp
-              exact hown i th' hi' hit (.putD k' v') (by simp [hr]) (by simp [Op.key?, e])
-            simp only [hne, if_false]
-            exact h.pend i th' k' v' hi' hp
-        · intro k' hidle
-          simp only [hrep, aget_aset]
-          have hne : k ≠ k' := by
-            intro e
-            obtain ⟨hlt, _⟩ := List.getElem?_eq_some_iff.mp hth
-            exact hidle t _ v (List.getElem?_set_self hlt) ⟨rfl, rest, by simp [hops, e]⟩
-          simp only [hne, if_false]
-          apply h.idle k'
-          intro i th' v' hi hp
-          by_cases hit : i = t
-          · subst hit
-            rw [hth] at hi
-            obtain rfl := Option.some.inj hi
-            exact absurd hp.1 (by simp [hpc])
-          · exact hidle i th' v' (by rw [List.getElem?_set_ne (Ne.symm hit)]; exact hi) hp
-      · -- the apply step
-        have hstep : stepOp sys.store (.putD k v) .putDAfterLog =
-            ({ sys.store with md := aset sys.store.md k v }, .done .ok) := by
-          cases hcl : k.cls <;> simp_all [stepOp, routerPut]
-        simp only [hpc, hstep]
-        have hpk : aget (replay sys.store.wal).md k = some v :=
-          h.pend t th k v hth ⟨hpc, rest, hops⟩
-        constructor
-        · exact h.walOn
-        · exact h.shape
-        · exact h.rshape
-        · intro th' hm
-          rcases List.mem_or_eq_of_mem_set hm with h1 | h1
-          · exact h.pcs th' h1
-          · subst h1
-            exact ⟨Or.inl rfl, fun o ho => hsimple o (by simp [hops, ho])⟩
-        · intro i j thi thj hi hj hij a ha b hb
-          rcases getElem?_set_cases hth hi with ⟨rfl, rfl⟩ | ⟨hit, hi'⟩ <;>
-            rcases getElem?_set_cases hth hj with ⟨rfl, rfl⟩ | ⟨hjt, hj'⟩
-          · exact absurd rfl hij
-          · exact h.own _ _ th thj hth hj' hij a (by simp [hops]; exact Or.inr ha) b hb
-          · exact h.own _ _ thi th hi' hth hij a ha b (by simp [hops]; exact Or.inr hb)
-          · exact h.own _ _ thi thj hi' hj' hij a ha b hb
-        · intro i th' k' v' hi hp
-          rcases getElem?_set_cases hth hi with ⟨rfl, rfl⟩ | ⟨hit, hi'⟩
-          · exact absurd hp.1 (by simp)
-          · exact h.pend i th' k' v' hi' hp
-        · intro k' hidle
-          simp only [aget_aset]
-          by_cases e : k = k'
-          · subst e; simp [hpk]
-          · simp only [e, if_false]
-            apply h.idle k'
-            intro i th' v' hi hp
-            by_cases hit : i = t
-            · subst hit
-              rw [hth] at hi
-              obtain rfl := Option.some.inj hi
-              obtain ⟨_, rest', hr⟩ := hp
-              simp only [hops, List.cons.injEq, Op.putD.injEq] at hr
-              exact e hr.1.1
-            · exact hidle i th' v' (by rw [List.getElem?_set_ne (Ne.symm hit)]; exact hi) hp
-
-theorem DInv.run {sys : Sys} (h : DInv sys) (sched : List Nat) : DInv (runFrom sys sched) := by
-  induction sched generalizing sys with
-  | nil => exact h
-  | cons t rest ih => exact ih (h.step t)
-
-/-! ### the repaired durable write: log mutex held across the apply -/
+/-! ### durable writes: the log mutex is held across the apply -/
 
 /-- invariant of lock-respecting runs of durable writers (any keys, contended): at most one
     thread is between its log step and its apply, and the replayed log agrees with memory on
@@ -628,8 +477,8 @@ theorem LInv.init (progs : List ThreadProgram)
   · intro k _
     rfl
 
-theorem LInv.step {sys : Sys} (h : LInv sys) (t : Nat) : LInv (stepLocked sys t) := by
-  unfold stepLocked
+theorem LInv.step {sys : Sys} (h : LInv sys) (t : Nat) : LInv (step sys t) := by
+  unfold Neumann.KV.step
   split
   · exact h
   · rename_i th hth
@@ -642,7 +491,7 @@ theorem LInv.step {sys : Sys} (h : LInv sys) (t : Nat) : LInv (stepLocked sys t)
         have hmem : th ∈ sys.threads := List.mem_of_getElem? hth
         obtain ⟨hpc, hsimple⟩ := h.pcs th hmem
         obtain ⟨k, v, rfl, hc, he, hv⟩ := simple_cases (hsimple op (by simp [hops]))
-        unfold Neumann.KV.step
+        unfold Neumann.KV.stepOld
         simp only [hth, hops]
         rcases hpc with hpc | ⟨hpc, _⟩
         · -- the log step: nobody holds the mutex
@@ -741,8 +590,7 @@ theorem LInv.step {sys : Sys} (h : LInv sys) (t : Nat) : LInv (stepLocked sys t)
                 exact e hr.1.1
               · exact hidle i th' v' (by rw [List.getElem?_set_ne (Ne.symm hit)]; exact hi) hp
 
-theorem LInv.run {sys : Sys} (h : LInv sys) (sched : List Nat) :
-    LInv (sched.foldl stepLocked sys) := by
+theorem LInv.run {sys : Sys} (h : LInv sys) (sched : List Nat) : LInv (runFrom sys sched) := by
   induction sched generalizing sys with
   | nil => exact h
   | cons t rest ih => exact ih (h.step t)
